@@ -745,6 +745,10 @@ func runE2EWorld(rc *RunCtx) *Outcome {
 			time.Sleep(time.Duration(rc.Ch.Intn(1_000_000, "clock offset")) * time.Microsecond)
 			cfg := verifhook.Config{MaxSteps: 30000, Horizon: 1000 * time.Hour, KeepLog: rc.KeepLog, TickBeforeWaive: []int{0, 2, 4}[rc.Ch.Intn(3, "time before waived waits")]}
 			cfg.Sticky = []int{0, 2, 6}[rc.Ch.Intn(3, "scheduler stickiness")]
+			if rc.Ch.Chance(1, 4, "priority scheduling") {
+				cfg.PCT = 1 + rc.Ch.Intn(3, "pct depth")
+				o.probe("priority (PCT) scheduling")
+			}
 			w.generate()
 			w.sim = verifhook.New(rc.Ch, cfg)
 			w.sim.SetRanker(func(key, value any) (int64, bool) {
